@@ -39,6 +39,12 @@ def slice_parts(t):
     if is_call(t, 'Index::index', 'IndexMut::index_mut') and t[2][1][0] == 'agg' and (t[2][1][2] or '').endswith('ops::Range'):
         f = dict(t[2][1][4])
         return strip_all(t[2][0]), poly(f['start']), poly(f['end'])
+    # base[start..][..len] is base[start..start+len]
+    if is_call(t, 'Index::index', 'IndexMut::index_mut') and t[2][1][0] == 'agg' and (t[2][1][2] or '').endswith('ops::RangeTo'):
+        inner = strip_all(t[2][0])
+        if is_call(inner, 'Index::index', 'IndexMut::index_mut') and inner[2][1][0] == 'agg' and (inner[2][1][2] or '').endswith('ops::RangeFrom'):
+            st = poly(dict(inner[2][1][4])['start'])
+            return strip_all(inner[2][0]), st, st + poly(dict(t[2][1][4])['end'])
     return None
 
 
